@@ -371,6 +371,16 @@ def _const_str(node):
                 return None
             parts.append(t)
         return "".join(parts)
+    if isinstance(node, ast.BinOp) and isinstance(node.op, ast.Mod):
+        # 'text %s text' % 'const' / % ('a', 'b')
+        fmt = _const_str(node.left)
+        args = node.right.elts if isinstance(node.right, ast.Tuple) else [node.right]
+        vals = [_const_str(a) for a in args]
+        if fmt is not None and all(v is not None for v in vals) and fmt.count("%s") == len(vals) and fmt.count("%") == len(vals):
+            try:
+                return fmt % tuple(vals)
+            except (TypeError, ValueError):
+                return None
     return None
 
 
